@@ -214,7 +214,9 @@ func c19Run(c *fw.Ctx) {
 		hostV := []string{hostA, "tenant-a.sso.test"}[x.Choose("host", 2)]
 		earlier := []string{"", "tenant-b.sso.test", hostV}[x.Choose("earlier-sign-out-on", 3)]
 		// the session cookie presented was issued for this host, or for a sibling (a domain-wide cookie)
-		cookieHost := []string{hostV, "tenant-b.sso.test", "b.sso.test"}[x.Choose("cookie-issued-for", 3)]
+		// ... or the browser holds no proxy session any more (it lapsed, or was sealed under a rotated secret) while
+		// the authenticator session is still alive
+		cookieHost := []string{hostV, "tenant-b.sso.test", "b.sso.test", "(no cookie)", "(cookie that does not open)"}[x.Choose("cookie-issued-for", 5)]
 		setNow(0)
 		if earlier != "" {
 			w.proxy.Do(harness.NewRequest("GET", "/oauth2/sign_out", earlier, nil, nil))
@@ -230,6 +232,12 @@ func c19Run(c *fw.Ctx) {
 		sealed := w.proxy.Seal(&sessions.SessionState{ProviderSlug: w.auth.Slug, ProviderType: "sso", AccessToken: "at", RefreshToken: "rt", LifetimeDeadline: future, RefreshDeadline: future, ValidDeadline: future,
 			Email: "bob@corp.test", User: "bob", AuthorizedUpstream: cookieHost})
 		h := http.Header{"Cookie": {harness.CookieName + "=" + sealed}}
+		switch cookieHost {
+		case "(no cookie)":
+			h = http.Header{}
+		case "(cookie that does not open)":
+			h = http.Header{"Cookie": {harness.CookieName + "=c2VhbGVkLXVuZGVyLWEtcm90YXRlZC1zZWNyZXQ"}}
+		}
 		for k, v := range visit.h {
 			h[k] = v
 		}
@@ -269,6 +277,43 @@ func c19Run(c *fw.Ctx) {
 			viol("return-address-on-another-host/"+pn, fmt.Sprintf("the signed return address %q resolves to %q (RFC 3986) / %q (browser), the request was made to %q", ret, h1, h2, hostV))
 		} else {
 			c.Res.Count("positive_sign_out_visits_signed_for_same_host", 1)
+		}
+	})
+
+	// Confirming at the authenticator with return addresses of several in-domain shapes (the proxy builds the
+	// return address from the request's Host, which carries a port whenever the proxy is reached on one): each,
+	// correctly signed, is shown the confirmation page, and the confirmation revokes, clears and returns.
+	returnShapes := []string{"http://" + hostA + "/", "https://" + hostA + ":8443/", "http://" + hostA + ":4180/oauth2/callback?x=1", "https://deep.er." + hostA + ":8443/"}
+	drive(c, "authenticator-sign-out/return-address-shapes", -1, func(x *explore.Exec, owned bool) {
+		ret := returnShapes[x.Choose("return-address", len(returnShapes))]
+		setNow(0)
+		w.noRefresh = false
+		_, A, err := w.login(func() harness.AuthAnswer { return ans(200, "{}") })
+		if err != nil {
+			panic(explore.HarnessError{Msg: "C19: " + err.Error()})
+		}
+		setNow(5)
+		ts := harness.NowUnix()
+		form := url.Values{"redirect_uri": {ret}, "sig": {harness.Sign(ret, ts, harness.ClientSecret)}, "ts": {fmt.Sprint(ts)}}
+		g := w.auth.Do(harness.NewRequest("GET", "/"+w.auth.Slug+"/sign_out?"+form.Encode(), harness.AuthHost, http.Header{"Cookie": {w.auth.CookieName + "=" + A}}, nil))
+		setNow(6)
+		w.revoked, w.revokeFailed, w.revokeCalls = false, false, 0
+		p := w.auth.Do(harness.NewRequest("POST", "/"+w.auth.Slug+"/sign_out", harness.AuthHost,
+			http.Header{"Content-Type": {"application/x-www-form-urlencoded"}, "Cookie": {w.auth.CookieName + "=" + A}}, []byte(form.Encode())))
+		if !owned {
+			return
+		}
+		cleared := false
+		if ck := p.Cookie(w.auth.CookieName); ck != nil && ck.Value == "" {
+			cleared = true
+		}
+		d := map[string]interface{}{"return_address": ret, "confirmation_page_status": g.Status, "confirm_status": p.Status, "confirm_location": p.Location, "revocation_requests": w.revokeCalls, "authenticator_cookie_cleared": cleared}
+		c.Res.Outcome(fmt.Sprintf("return-shape|%s|%d|%d|%d|%v", ret, g.Status, p.Status, w.revokeCalls, cleared))
+		if g.Status != 200 || p.Status != 302 || p.Location != ret || w.revokeCalls == 0 || !cleared {
+			c.Res.Violate(fw.Violation{Property: "C19", Key: "C19/authenticator-sign-out/valid-in-domain-return-address-refused", Scenario: "authenticator-sign-out/return-address-shapes", Choices: x.Choices(), Detail: d,
+				What: fmt.Sprintf("a correctly signed, fresh, in-domain return address %q: confirmation page %d, confirming answered %d (Location %q), %d revocation request(s), authenticator cookie cleared: %v", ret, g.Status, p.Status, p.Location, w.revokeCalls, cleared)})
+		} else {
+			c.Res.Count("positive_sign_outs_with_return_address_shapes", 1)
 		}
 	})
 
